@@ -3,6 +3,7 @@
 definitions) from the CURRENT tree: run it after a `fix:` commit, together with the checks (the rules are confirmed
 against this tree)."""
 import ast
+import hashlib
 import json
 import os
 import sys
@@ -16,7 +17,10 @@ root = Path(os.environ.get("GV_REPO", "/repo")) / "src" / "gemseo"
 out = {}
 for path in sorted(root.rglob("*.py")):
     rel = path.relative_to(root).as_posix()
-    tree = ast.parse(path.read_text(encoding="utf-8"))
+    text = path.read_text(encoding="utf-8")
+    tree = ast.parse(text)
+    # a module whose text is the reference text needs no normalisation (the reference tree is a fixpoint)
+    out[f"#digest:{rel}"] = hashlib.sha1(text.encode()).hexdigest()
 
     def visit(node, prefix):
         for ch in ast.iter_child_nodes(node):
@@ -36,4 +40,4 @@ for path in sorted(root.rglob("*.py")):
 
     visit(tree, "")
 (V / "gv" / "refnames.json").write_text(json.dumps(out, sort_keys=True, separators=(",", ":")))
-print(len(out), "functions")
+print(sum(1 for k in out if not k.startswith("#")), "functions")
